@@ -90,7 +90,7 @@ def programs(tier):
         "(define (main) (let ((r '()) (k #f)) (dynamic-wind (lambda () (set! r (cons 'in r))) (lambda () (call/cc (lambda (c) (set! k c))) (set! r (cons 'body r))) (lambda () (set! r (cons 'out r)))) (if (< (length r) 6) (k 1) (reverse r)))) (main)",
     ]
     # ---- errors and handlers
-    ERRP = ["(error \"boom\")", "(car 5)", "(vector-ref (vector) 1)", "((lambda (x) x))"]
+    ERRP = ["(error \"boom\")", "(car 5)", "(vector-ref (vector) 1)", "(apply (lambda (x) x) '())"]
     for do in depths:
         for di in depths:
             for sh in shareds:
